@@ -1013,6 +1013,198 @@ theorem C01_ctx_sound_range (body : Lin) (lb ub : Option Rat) (a f : Asg)
       simp [hl, hu, req] at hb
       rw [← hb]; exact hfeas
 
+
+/-! ## conditional comparisons `res ⇔ body (k) rhs`, k ∈ {<, ≤, ≥, >} -/
+
+/-- enforced when `res = 1` (positive direction); `e` is the comparison epsilon -/
+def posPred (k : Cmp5) (e b rhs : Rat) : Prop :=
+  match k with
+  | .lt => b ≤ rhs + -1 * e | .le => b ≤ rhs + 0 | .ge => rhs + 0 ≤ b | .gt => rhs + 1 * e ≤ b | .eq => b = rhs
+
+/-- enforced when `res = 0` (negative direction) -/
+def negPred (k : Cmp5) (e b rhs : Rat) : Prop :=
+  match k with
+  | .lt => rhs + 0 ≤ b | .le => rhs + 1 * e ≤ b | .ge => b ≤ rhs + -1 * e | .gt => b ≤ rhs + 0 | .eq => True
+
+theorem emit_core (res : Var) (body : Lin) (rhs : Rat) (B : Bnds) (kout : Cmp) (value : Nat) (eps : Rat) (x : Asg)
+    (hne : body.isEmpty = false) (hval : value = 0 ∨ value = 1) (hr : x res = 0 ∨ x res = 1) (hd : inDom B x res) :
+    (∀ c ∈ (condIneqEmit res body rhs B kout value eps).cons, c.sat x) ↔
+      (x res = (value : Rat) → kout.holds (evalLin x body) (rhs + eps)) := by
+  simp only [condIneqEmit, hne, Bool.false_eq_true, if_false]
+  by_cases hf : (B res).isFixed = true
+  · have hv := fixed_val hf hd
+    simp only [hf, if_true]
+    by_cases he : ((value : Rat) == (B res).fixedVal) = true
+    · have he' : (value : Rat) = (B res).fixedVal := by simpa using he
+      simp [he, Con.sat, hv, he']
+    · have he' : ¬ (value : Rat) = (B res).fixedVal := by simpa using he
+      simp only [he, Bool.false_eq_true, if_false]
+      constructor
+      · intro _ h; rw [hv] at h; exact absurd h.symm he'
+      · intro _ c hc; exact absurd hc (by simp)
+  · simp [hf, Con.sat]
+
+theorem emit_refusal (res : Var) (body : Lin) (rhs : Rat) (B : Bnds) (kout : Cmp) (value : Nat) (eps : Rat) :
+    (condIneqEmit res body rhs B kout value eps).refusal = none ∧
+    (condIneqEmit res body rhs B kout value eps).vars = [] := by
+  unfold condIneqEmit
+  cases kout <;> simp only [] <;> split <;> (try split) <;> (try split) <;> exact ⟨rfl, rfl⟩
+
+theorem dispatch_noaux2 (ctx : Ctx) (B : Bnds) (res : Var) (n : Nat) (oN oP : Out)
+    (hN0 : oN.refusal = none) (hP0 : oP.refusal = none) (x : Asg) (hd : inDom B x res)
+    (hr : x res = 0 ∨ x res = 1) (QN QP : Prop)
+    (cN : (∀ c ∈ oN.cons, c.sat x) ↔ (x res = 0 → QN)) (cP : (∀ c ∈ oP.cons, c.sat x) ↔ (x res = 1 → QP)) :
+    ((∀ c ∈ (dispatch ctx true (B res) n (fun _ => oN) (fun _ => oP)).cons, c.sat x) ↔
+      ((ctx.eff.hasPos = true → x res = 1 → QP) ∧ (ctx.eff.hasNeg = true → x res = 0 → QN))) := by
+  by_cases hN : needNeg ctx true (B res) = true <;> by_cases hP : needPos ctx true (B res) = true <;>
+    simp only [dispatch, hN, hP, if_true, if_false, hN0, hP0, List.append_nil, List.nil_append,
+      Bool.false_eq_true, List.mem_append, List.not_mem_nil] <;>
+    (try simp only [Bool.not_eq_true] at hN hP)
+  · have e1 : ctx.eff.hasPos = true := by simp [needPos] at hP; exact hP.1
+    have e2 : ctx.eff.hasNeg = true := by simp [needNeg] at hN; exact hN.1
+    constructor
+    · intro h
+      exact ⟨fun _ => cP.mp (fun c hc => h c (Or.inr hc)), fun _ => cN.mp (fun c hc => h c (Or.inl hc))⟩
+    · intro ⟨h1, h2⟩ c hc
+      rcases hc with hc | hc
+      · exact cN.mpr (h2 e2) c hc
+      · exact cP.mpr (h1 e1) c hc
+  · have e2 : ctx.eff.hasNeg = true := by simp [needNeg] at hN; exact hN.1
+    constructor
+    · intro h
+      refine ⟨fun e1 h1 => ?_, fun _ => cN.mp h⟩
+      have := pos_skip e1 hP hd; rw [h1] at this; exact absurd this (by grind)
+    · intro ⟨_, h2⟩; exact cN.mpr (h2 e2)
+  · have e1 : ctx.eff.hasPos = true := by simp [needPos] at hP; exact hP.1
+    constructor
+    · intro h
+      refine ⟨fun _ => cP.mp h, fun e2 h0 => ?_⟩
+      have := neg_skip e2 hN hd; rw [h0] at this; exact absurd this (by grind)
+    · intro ⟨h1, _⟩; exact cP.mpr (h1 e1)
+  · constructor
+    · intro _
+      refine ⟨fun e1 h1 => ?_, fun e2 h0 => ?_⟩
+      · have := pos_skip e1 hP hd; rw [h1] at this; exact absurd this (by grind)
+      · have := neg_skip e2 hN hd; rw [h0] at this; exact absurd this (by grind)
+    · intro _ c hc; exact absurd hc (by simp)
+
+def condDom (B : Bnds) (res : Var) (x : Asg) : Prop := (x res = 0 ∨ x res = 1) ∧ inDom B x res
+
+/-- what `Cond_LE_LT_GT_GE_Converter_MIP` emits is exactly: `res = 1 ⇒ posPred` when the context has a
+positive part and `res = 0 ⇒ negPred` when it has a negative part (eps = `ComparisonEps` of the body type) -/
+theorem C01_gadget_condineq_emits (k : Cmp5) (hk : k ≠ .eq) (res : Var) (body : Lin) (rhs : Rat) (ctx : Ctx) (B : Bnds)
+    (o : Opts) (n : Nat) (hne : body.isEmpty = false) :
+    Exact (gCondIneq k res body rhs ctx B o n) n (condDom B res)
+      (fun x => (ctx.eff.hasPos = true → x res = 1 → posPred k (cmpEpsOf o (linBnd B body).2.2) (evalLin x body) rhs) ∧
+                (ctx.eff.hasNeg = true → x res = 0 → negPred k (cmpEpsOf o (linBnd B body).2.2) (evalLin x body) rhs)) := by
+  have key : ∀ x, condDom B res x →
+      ((∀ c ∈ (gCondIneq k res body rhs ctx B o n).cons, c.sat x) ↔
+        ((ctx.eff.hasPos = true → x res = 1 → posPred k (cmpEpsOf o (linBnd B body).2.2) (evalLin x body) rhs) ∧
+         (ctx.eff.hasNeg = true → x res = 0 → negPred k (cmpEpsOf o (linBnd B body).2.2) (evalLin x body) rhs))) := by
+    intro x ⟨hr, hd⟩
+    have cN : (∀ c ∈ (condIneqNeg k res body rhs B o).cons, c.sat x) ↔
+        (x res = 0 → negPred k (cmpEpsOf o (linBnd B body).2.2) (evalLin x body) rhs) := by
+      have := emit_core res body rhs B (if k.isGreater then .le else .ge) 0
+        (if k.isStrict then 0 else (if k.isGreater then -1 else 1) * cmpEpsOf o (linBnd B body).2.2) x hne (Or.inl rfl) hr hd
+      unfold condIneqNeg
+      rw [this]
+      cases k <;> simp [Cmp5.isGreater, Cmp5.isStrict, Cmp.holds, negPred] at hk ⊢
+    have cP : (∀ c ∈ (condIneqPos k res body rhs B o).cons, c.sat x) ↔
+        (x res = 1 → posPred k (cmpEpsOf o (linBnd B body).2.2) (evalLin x body) rhs) := by
+      have := emit_core res body rhs B (if k.isGreater then .ge else .le) 1
+        (if k.isStrict then (if k.isGreater then 1 else -1) * cmpEpsOf o (linBnd B body).2.2 else 0) x hne (Or.inr rfl) hr hd
+      unfold condIneqPos
+      rw [this]
+      cases k <;> simp [Cmp5.isGreater, Cmp5.isStrict, Cmp.holds, posPred] at hk ⊢
+    exact dispatch_noaux2 ctx B res n _ _ (emit_refusal ..).1 (emit_refusal ..).1 x hd hr _ _ cN cP
+  have hv : (gCondIneq k res body rhs ctx B o n).vars = [] :=
+    dispatch_noaux_vars ctx true (B res) n _ _ (emit_refusal ..).1 (emit_refusal ..).1 (emit_refusal ..).2 (emit_refusal ..).2
+  exact ⟨fun y hd _ h => (key y hd).mp h, fun x hd h => realizable_self hv ((key x hd).mpr h)⟩
+
+theorem rel_b2r_iff (ctx : Ctx) (r : Rat) (p : Prop) [Decidable p] (hr : r = 0 ∨ r = 1) :
+    rel ctx r (b2r p) ↔ ((ctx.eff.hasPos = true → r = 1 → p) ∧ (ctx.eff.hasNeg = true → r = 0 → ¬ p)) := by
+  rw [rel_iff]
+  by_cases hp : p <;> rcases hr with h0 | h0 <;> subst h0 <;> simp [b2r, hp] <;> grind
+
+/-- soundness for every positive epsilon: what is emitted implies the context's reading of `res ⇔ body (k) rhs` -/
+theorem C01_gadget_condineq_sound (k : Cmp5) (hk : k ≠ .eq) (ctx : Ctx) (e b rhs r : Rat) (he : 0 < e) (hr : r = 0 ∨ r = 1)
+    (h : (ctx.eff.hasPos = true → r = 1 → posPred k e b rhs) ∧ (ctx.eff.hasNeg = true → r = 0 → negPred k e b rhs)) :
+    rel ctx r (b2r (k.holds b rhs)) := by
+  rw [rel_b2r_iff ctx r _ hr]
+  obtain ⟨h1, h2⟩ := h
+  constructor
+  · intro hp h0
+    have := h1 hp h0
+    cases k <;> simp only [posPred, Cmp5.holds] at this hk ⊢ <;> grind
+  · intro hn h0
+    have := h2 hn h0
+    cases k <;> simp only [negPred, Cmp5.holds] at this hk ⊢ <;> grind
+
+/-- exactness for integer bodies (`eps = 1`, integer right-hand side after the preprocessing rounding) -/
+theorem C01_gadget_condineq_exact_int (k : Cmp5) (hk : k ≠ .eq) (ctx : Ctx) (b rhs r : Rat)
+    (hb : isIntVal b) (hrhs : isIntVal rhs) (hr : r = 0 ∨ r = 1) :
+    ((ctx.eff.hasPos = true → r = 1 → posPred k 1 b rhs) ∧ (ctx.eff.hasNeg = true → r = 0 → negPred k 1 b rhs))
+      ↔ rel ctx r (b2r (k.holds b rhs)) := by
+  constructor
+  · exact C01_gadget_condineq_sound k hk ctx 1 b rhs r (by grind) hr
+  · rw [rel_b2r_iff ctx r _ hr]
+    intro ⟨h1, h2⟩
+    have lt1 : b < rhs → b + 1 ≤ rhs := int_lt_add_one hb hrhs
+    have lt2 : rhs < b → rhs + 1 ≤ b := int_lt_add_one hrhs hb
+    constructor
+    · intro hp h0
+      have := h1 hp h0
+      cases k <;> simp only [posPred, Cmp5.holds] at this hk ⊢ <;> grind
+    · intro hn h0
+      have := h2 hn h0
+      cases k <;> simp only [negPred, Cmp5.holds] at this hk ⊢ <;> grind
+
+/-- completeness away from the boundary for continuous bodies: at a point at distance ≥ eps from the
+boundary (or on it) every value of `res` the original relation allows is still allowed -/
+theorem C01_gadget_condineq_complete_margin (k : Cmp5) (hk : k ≠ .eq) (ctx : Ctx) (e b rhs r : Rat)
+    (hr : r = 0 ∨ r = 1)
+    (hmargin : b ≤ rhs + -1 * e ∨ b = rhs ∨ rhs + 1 * e ≤ b)
+    (h : rel ctx r (b2r (k.holds b rhs))) (he : 0 < e) :
+    (ctx.eff.hasPos = true → r = 1 → posPred k e b rhs) ∧ (ctx.eff.hasNeg = true → r = 0 → negPred k e b rhs) := by
+  rw [rel_b2r_iff ctx r _ hr] at h
+  obtain ⟨h1, h2⟩ := h
+  constructor
+  · intro hp h0
+    have := h1 hp h0
+    cases k <;> simp only [posPred, Cmp5.holds] at this hk ⊢ <;> grind
+  · intro hn h0
+    have := h2 hn h0
+    cases k <;> simp only [negPred, Cmp5.holds] at this hk ⊢ <;> grind
+
+
+
+/-! ## non-vacuity: the hypotheses of the gadget theorems are satisfiable and the steps do emit constraints -/
+
+example : (gAbs 0 1 .mix (fun _ => {}) 2).cons.length = 4 ∧ (gAbs 0 1 .mix (fun _ => {}) 2).vars.length = 1 := by
+  decide
+
+example : (gAbs 0 1 .mix (fun _ => {}) 2).realizable 2 (fun v => if v = 0 then 3 else -3) := by
+  apply (C01_gadget_abs 0 1 .mix (fun _ => {}) 2 (by decide) (by decide)).2 _ trivial
+  simp [rel, req, Ctx.eff, Fun.val]; grind
+
+example : ¬ (gAbs 0 1 .neg (fun _ => {}) 2).realizable 2 (fun v => if v = 0 then 2 else -3) := by
+  intro ⟨y, hag, haux, hc⟩
+  have := (C01_gadget_abs 0 1 .neg (fun _ => {}) 2 (by decide) (by decide)).1 y trivial haux hc
+  have e0 := hag 0 (by decide)
+  have e1 := hag 1 (by decide)
+  simp [rel, req, Ctx.eff, Fun.val, e0, e1] at this
+  grind
+
+example : (gIndLE 1 1 [(1, 0), (2, 2)] 3
+    (fun v => if v = 0 then { lb := some 0, ub := some 5 } else { lb := some (-1), ub := some 4, isInt := true }) {}).cons
+    = [Con.linRhs .le [(1, 0), (2, 2), (10, 1)] 13] := by
+  have h : ¬ ((13 : Rat) = 3) := by grind
+  have h2 : ¬ (pracInf ≤ (13 : Rat)) := by unfold pracInf; grind
+  have e : (5 : Rat) + (2 * 4 + 0) = 13 := by grind
+  simp [gIndLE, implLE, bigMUpper, linBnd, optAdd, optScale]
+  grind
+
+
 /-!
 ## Stage 2 (NOT proved here): composition
 
